@@ -371,6 +371,7 @@ Section P.
       + intros s' a' c' Hin. apply Ic. right. exact Hin.
     - (* LHandle *)
       destruct (a_alive (actors C st a)); [|discriminate].
+      destruct (a_started (actors C st a)); [|discriminate]. cbn [andb] in H.
       destruct (a_mbox (actors C st a)) as [|[s' r] q] eqn:M; [discriminate|].
       destruct (N.eqb s' s); [|discriminate]. inversion H; subst; clear H.
       eapply winv_frame; [exact I|reflexivity|reflexivity|reflexivity|reflexivity|].
@@ -386,6 +387,12 @@ Section P.
       eapply winv_frame; [exact I|reflexivity|reflexivity|reflexivity|reflexivity|].
       intros a' it Hin. cbn in Hin. unfold updf in Hin. destruct (N.eqb a' a) eqn:Ea; [|assumption].
       apply N.eqb_eq in Ea. subst a'. cbn in Hin. apply in_or_app. right. assumption.
+    - (* LStart *)
+      destruct (a_alive (actors C st a) && negb (a_started (actors C st a)))%bool; [|discriminate].
+      inversion H; subst; clear H.
+      eapply winv_frame; [exact I|reflexivity|reflexivity|reflexivity|reflexivity|].
+      intros a' it Hin. cbn in Hin. unfold updf in Hin. destruct (N.eqb a' a) eqn:Ea; [|assumption].
+      apply N.eqb_eq in Ea. subst a'. cbn in Hin. assumption.
   Qed.
 
   (* ---------- refinement ---------- *)
@@ -470,7 +477,7 @@ Section P.
     crun0 (cv c) (absv C s a st) (proj C s a l) = Some (absv C s a st') /\ okfor s a c st' t.
   Proof.
     intros s a c st st' l t I Ok H.
-    destruct l as [m|s' a' c'|n| |s'|r|a' s'|a'].
+    destruct l as [m|s' a' c'|n| |s'|r|a' s'|a'|a'].
     - (* LPublish *)
       cbn [V2.step] in H. inversion H; subst; clear H. split; [|exact Ok].
       cbn [proj crun]. unfold absv. cbn [decl actors].
@@ -644,6 +651,7 @@ Section P.
     - (* LHandle *)
       cbn [V2.step] in H.
       destruct (a_alive (actors C st a')) eqn:Al; [|discriminate].
+      destruct (a_started (actors C st a')) eqn:Sd; [|discriminate]. cbn [andb] in H.
       destruct (a_mbox (actors C st a')) as [|[s'' r] q] eqn:M; [discriminate|].
       destruct (N.eqb s'' s') eqn:Ess; [|discriminate]. apply N.eqb_eq in Ess. subst s''.
       inversion H; subst; clear H.
@@ -654,13 +662,13 @@ Section P.
         unfold okfor in Ok. rewrite D1 in Ok. destruct Ok as [Ha _]. subst a'.
         cbn [crun]. unfold absv. cbn [decl actors]. rewrite D1, updf_same2. cbn [a_mbox a_got a_alive].
         assert (Hb : backlog C (mkSt C (queue C st) (batch C st) (dp C st) (subscribers C st)
-                       (updf (actors C st) a (mkActor true q (a_got (actors C st a) ++ [(s, r)]))) (decl C st)) s
+                       (updf (actors C st) a (mkActor true true q (a_got (actors C st a) ++ [(s, r)]))) (decl C st)) s
                      = backlog C st s) by reflexivity.
         rewrite Hb, Al, M, tagged_cons_same2, tagged_app2, tagged_one_same2.
         destruct (backlog C st s); reflexivity.
       + cbn [crun]. f_equal. unfold absv. cbn [decl actors].
         assert (Hb : backlog C (mkSt C (queue C st) (batch C st) (dp C st) (subscribers C st)
-                       (updf (actors C st) a' (mkActor true q (a_got (actors C st a') ++ [(s', r)]))) (decl C st)) s
+                       (updf (actors C st) a' (mkActor true true q (a_got (actors C st a') ++ [(s', r)]))) (decl C st)) s
                      = backlog C st s) by reflexivity.
         rewrite Hb. unfold updf. destruct (N.eqb a a') eqn:Ea; [|reflexivity].
         apply N.eqb_eq in Ea. subst a'. cbn [a_mbox a_got a_alive].
@@ -674,11 +682,22 @@ Section P.
       + apply N.eqb_eq in Ea. subst a'. cbn [crun]. unfold absv. cbn [decl actors]. rewrite updf_same2.
         cbn [a_mbox a_got a_alive].
         assert (Hb : backlog C (mkSt C (queue C st) (batch C st) (dp C st) (subscribers C st)
-                       (updf (actors C st) a (mkActor false [] (a_got (actors C st a)))) (decl C st)) s
+                       (updf (actors C st) a (mkActor false (a_started (actors C st a)) [] (a_got (actors C st a)))) (decl C st)) s
                      = backlog C st s) by reflexivity.
         rewrite Hb, Al. destruct (decl C st s); [destruct (backlog C st s)|]; reflexivity.
       + cbn [crun]. f_equal. symmetry. apply absv_eq; try reflexivity.
         cbn [actors]. apply updf_other2. apply N.eqb_neq. apply N.eqb_neq in Ea. congruence.
+    - (* LStart *)
+      cbn [V2.step] in H.
+      destruct (a_alive (actors C st a')) eqn:Al; [|discriminate].
+      destruct (a_started (actors C st a')) eqn:Sd; [discriminate|]. cbn in H.
+      inversion H; subst; clear H.
+      split; [|unfold okfor in *; cbn [decl]; exact Ok].
+      cbn [proj crun]. f_equal. unfold absv. cbn [decl actors].
+      match goal with |- context [backlog C (mkSt C ?q ?bt ?d ?su ?ac ?de) s] =>
+        assert (Hb : backlog C (mkSt C q bt d su ac de) s = backlog C st s) by reflexivity end.
+      rewrite Hb. unfold updf. destruct (N.eqb a a') eqn:Ea; [|reflexivity].
+      apply N.eqb_eq in Ea. subst a'. cbn [a_mbox a_got a_alive]. rewrite Al. reflexivity.
   Qed.
 
   Lemma sim_run : forall s a c ls (st st' : state),
